@@ -35,6 +35,7 @@ SHIPPED_QUICK = [
     (TD / 'test_long_network.json', TD / 'eqpt_config.json'),
     (TD / 'test_network.json', TD / 'eqpt_config.json'),
     (TD / 'twohops_roadm_power_test.json', TD / 'eqpt_config.json'),
+    (TD / 'network_per_frequency_loss_expected.json', TD / 'eqpt_config.json'),
 ]
 SHIPPED_THOROUGH = SHIPPED_QUICK + [
     (EX / 'CORONET_CONUS_Topology.json', EX / 'eqpt_config.json'),
@@ -94,9 +95,10 @@ def _b2_one(c):
     eq = du.equipment_for(c['s'])
     s = dict(c['s'])
     s['lib'] = sorted(eq['Edfa'].keys())
+    s['maxLen'] = s['maxLen'] * 100                         # the model counts metres, observations are in cm
     try:
-        before, names, net, _, _ = du.design(topo, eq, unit=1.0)
-        g = du.project_network(net, names, unit=1.0)
+        before, names, net, _, _ = du.design(topo, eq)
+        g = du.project_network(net, names)
     except Exception as e:                                   # noqa - an exception on a well-formed topology
         msg, tb = du.exc_text(e)
         return None, (f'B2|exception|{type(e).__name__}|{features(c)}',
@@ -127,7 +129,7 @@ def b3_traces(pairs, chk):
         doc = load_json(topo_file)
         name = f'{topo_file.parent.name}/{topo_file.name}'
         try:
-            before, names, net, _, _ = du.design(doc, eq)
+            before, names, net, _, _ = du.design(du.as_loadable(doc), eq)
             g = du.project_network(net, names)
         except Exception as e:                                   # noqa
             msg, tb = du.exc_text(e)
@@ -144,7 +146,9 @@ def judge(traces, chk, tag, batch=400):
     for k in range(0, len(traces), batch):
         part = traces[k:k + batch]
         data = '\n'.join(json.dumps({a: b for a, b in t.items() if not a.startswith('_')}) for t in part) + '\n'
-        res = tlc.run('Trace_Design', extra_files={'trace.ndjson': data}, env={'TRACE_FILE': 'trace.ndjson'},
+        # chains of several hundred elements (CORONET) are walked recursively: give the JVM threads a deep stack
+        res = tlc.run('Trace_Design', extra_files={'trace.ndjson': data},
+                      env={'TRACE_FILE': 'trace.ndjson', 'JAVA_TOOL_OPTIONS': '-Xss512m'},
                       workers=min(4, max(1, len(part) // 50)) if len(part) > 50 else 1, timeout=3000, tag=tag)
         if not res.ok:
             raise Machinery(f'trace validation run failed: {res.error or res.violated}\n{res.out[-2500:]}')
@@ -214,8 +218,17 @@ def run(chk):
                        limit=4)
     chk.cov['b3_networks'] = len(t3)
     chk.cov['clauses'] = CLAUSES
-    chk.cov['tolerance_udb'] = 3
-    chk.cov['measured_padding_deviation_udb'] = 0
+    chk.cov['rule'] = ('cases = the (topology, Span settings) pairs enumerated by TLC from MC_DesignStructure plus the '
+                       'shipped networks; a case is non-trivial when auto-design added at least one element '
+                       '(amplifier or split span) or raised; distinct by chain composition + settings / file name')
+    chk.cov['tolerance_udb'] = 10
+    # measured on this run: |loss - padding| of the padded single-fibre amplifier-to-amplifier spans (float noise)
+    dev = [abs(e['loss'] - t['s']['padding']) for t in traces for e in t['ev'][0]['g']
+           if e['type'] == 'Fiber' and e['attIn'] not in (0, NONE) and e['origin'] == '' and t['s']['padding'] > 0
+           and all(t['ev'][0]['g'][j - 1]['type'] == 'Edfa' for j in e['succ'] + e['pred'])
+           and not any(i['name'] == e['name'] and i['attIn'] not in (0, NONE) for i in t['inp'])]
+    chk.cov['padded_spans_measured'] = len(dev)
+    chk.cov['measured_padding_deviation_udb'] = max(dev, default=0)
     chk.assume('well-formed topology: every ROADM has one transceiver; no parallel links between two ROADMs; '
                'fibres of the generated cases are SSMF 0.2 dB/km with connector losses left to the Span defaults; '
                'Raman fibres carry their own connector losses (RamanFiber() raises TypeError on con_out = None)')
